@@ -12,7 +12,8 @@
 \* whole walk as one WALK line (history variable, -simulate tier) for the replay engine.
 EXTENDS Integers, Sequences, FiniteSets, TLC, Json
 
-CONSTANTS Names, Temps, MaxDefs, Emit, Hist, WalkLen
+CONSTANTS Names, Temps, MaxDefs, Emit, Hist, WalkLen,
+          ProbeKinds   \* kinds whose names are looked up (used) by Probe steps
 
 Kinds == {"class", "iface", "func"}
 Empty == [k \in Kinds |-> {}]
@@ -69,7 +70,16 @@ Discard(t) ==
   /\ act' = [op |-> "discard", vm |-> t, kind |-> "", name |-> "", ok |-> TRUE]
   /\ UNCHANGED base /\ Record
 
+\* code running on VM v uses name n (new n() / n() / interface lookup with autoload): it succeeds exactly
+\* when v resolves n, and -- found or not -- it changes what no VM resolves.  A failed lookup goes
+\* through the autoload probe (runtime GetOrLoadClass), which is where a VM could be re-bound.
+Probe(v, k, n) ==
+  /\ (IF v = "base" THEN TRUE ELSE alive[v])
+  /\ act' = [op |-> "probe", vm |-> v, kind |-> k, name |-> n, ok |-> (n \in Resolve(base, temp, alive, v, k))]
+  /\ UNCHANGED <<base, temp, alive>> /\ Record
+
 Step == \/ \E k \in Kinds, n \in Names : DefineBase(k, n)
+        \/ \E v \in VMs, k \in ProbeKinds, n \in Names : Probe(v, k, n)
         \/ \E t \in Temps, k \in Kinds, n \in Names : DefineTemp(t, k, n)
         \/ \E t \in Temps : NewTemp(t) \/ Discard(t)
 
@@ -96,6 +106,8 @@ Isolation == [][\A t \in Temps : (act'.op = "define" /\ act'.vm = t) =>
 LifecycleIsLocal == [][\A t \in Temps : (act'.op \in {"new", "discard"} /\ act'.vm = t) =>
                  \A v \in VMs \ {t}, k \in Kinds :
                     Resolve(base', temp', alive', v, k) = Resolve(base, temp, alive, v, k)]_vars
+\* using a name changes what no VM resolves
+ProbeIsPure == [][act'.op = "probe" => Table(base', temp', alive') = Table(base, temp, alive)]_vars
 \* everything defined on the base VM is resolvable through every live temp VM
 BaseVisibleEverywhere == \A t \in Temps, k \in Kinds : alive[t] => base[k] \subseteq Resolve(base, temp, alive, t, k)
 \* a fresh temp VM resolves exactly the base names
